@@ -193,25 +193,46 @@ def run(prog, tier, extra=None):
                     derived_v[ys[3]] = (lin, bb)
     # the producer's assignments
     direct, derived_c, assigned = {}, {}, set()
-    for bb, blk in enumerate(cr.blocks):
-        for st in blk["s"]:
-            if st[0] != "=":
-                continue
-            fs = [pr for pr in st[1][1] if isinstance(pr, list) and pr[0] == "f"]
-            if not fs or not fs[-1][2].endswith("block::Block") or st[1][1][-1] != fs[-1]:
-                continue
-            g = fs[-1][3]
+    # Block::create may hand part of the header filling to private Block methods taking the consensus values
+    # (`block.apply_fee_totals(&cv)`): their assignments count as the producer's, reported at the call site
+    producer_bodies = [(cr, cch, None)]
+    for bb, t in cr.calls():
+        hb = prog.bodies.get(t.get("res") or t.get("callee") or "")
+        if hb is None or hb.is_promoted or not hb.path.startswith(BLK) or hb.path == cr.path or "::tests::" in hb.path:
+            continue
+        ptys = [hb.ty_str(i + 1) for i in range(len(t["args"]))]
+        if ptys and ptys[0].replace(" ", "").startswith("&mut") and "block::Block" in ptys[0] and any(CV in x for x in ptys[1:]):
+            producer_bodies.append((hb, Chaser(hb), bb))
+
+    def block_field_stores(body):
+        for bb, blk in enumerate(body.blocks):
+            for st in blk["s"]:
+                if st[0] != "=":
+                    continue
+                fs = [pr for pr in st[1][1] if isinstance(pr, list) and pr[0] == "f"]
+                if not fs or not fs[-1][2].endswith("block::Block") or st[1][1][-1] != fs[-1]:
+                    continue
+                yield bb, st, fs[-1][3]
+    for pbody, pch, site in producer_bodies:
+        for bb, st, g in block_field_stores(pbody):
+            at = bb if site is None else site
             assigned.add(g)
-            e = cch.rvalue(st[2], 0)
+            e = pch.rvalue(st[2], 0)
             f = cv_field(e)
             if f:
-                direct[g] = (f, bb)
+                direct[g] = (f, at)
             else:
-                lin = canon_lin(cr, cch, e)
+                lin = canon_lin(pbody, pch, e)
                 if lin:
-                    derived_c[g] = (lin, bb)
+                    derived_c[g] = (lin, at)
     # fields the producer recomputes from fields of the block under construction (block.total_fees = block.total_fees_new + ...)
     producer_lin = {}
+
+    def root_of(e):
+        x = strip(e)
+        while x[0] in ("deref", "ref"):
+            x = strip(x[1])
+        return (x[0], x[1]) if x[0] in ("local", "param") else None
 
     def own_lin(e, base):
         x = strip(e)
@@ -231,19 +252,16 @@ def run(prog, tier, extra=None):
             for k, v in b_.items():
                 out[k] = out.get(k, 0) + (v if op == "Add" else -v)
             return {k: v for k, v in out.items() if v != 0}
-        if x[0] == "field" and x[2].endswith("block::Block") and strip(x[1]) [0] == "local" and strip(x[1])[1] == base and x[3] in direct:
+        if x[0] == "field" and x[2].endswith("block::Block") and root_of(x[1]) is not None and root_of(x[1])[1] == base and x[3] in direct:
             return {"cv." + direct[x[3]][0]: 1}
         return None
-    for bb, blk in enumerate(cr.blocks):
-        for st in blk["s"]:
-            if st[0] != "=":
+    for pbody, pch, site in producer_bodies:
+        for bb, st, g_ in block_field_stores(pbody):
+            if g_ in direct:
                 continue
-            fs = [pr for pr in st[1][1] if isinstance(pr, list) and pr[0] == "f"]
-            if not fs or not fs[-1][2].endswith("block::Block") or st[1][1][-1] != fs[-1] or fs[-1][3] in direct:
-                continue
-            g_ = fs[-1][3]
-            lin_ = own_lin(cch.rvalue(st[2], 0), st[1][0])
-            producer_lin[g_] = (lin_, bb) if g_ not in producer_lin else (None, bb)       # assigned twice: not decided
+            lin_ = own_lin(pch.rvalue(st[2], 0), st[1][0])
+            at = bb if site is None else site
+            producer_lin[g_] = (lin_, at) if g_ not in producer_lin else (None, at)       # assigned twice: not decided
     gcv = prog.body(BLK + "generate_consensus_values::{closure#0}")
     gen_defs = {}
     if gcv is not None:
